@@ -131,6 +131,15 @@ func Sibling(w *World, m *Meta) (*World, map[int]SibLoc) {
 		s.ln("")
 		for n, u := range groups[k] {
 			s.ln("func sib_%s_%s_%d() {", m.Decls[k.u].Qual, strings.TrimSuffix(k.file, ".go"), n)
+			if strings.HasPrefix(u.Shape, "hidden:") {
+				s.ln("\tu := GetU%s()", dep.Qual)
+				line := s.ln("\t%s", u.Text)
+				locs[u.ID] = SibLoc{File: fmt.Sprintf("zz_sib_%s_%s", m.Decls[k.u].Qual, k.file), Line: line}
+				s.ln("\t_ = u")
+				s.ln("}")
+				s.ln("")
+				continue
+			}
 			s.ln("\tx := Get%s()", u.Type)
 			s.ln("\t_ = x")
 			for _, l := range shapeByName(u.Shape).lines {
